@@ -379,3 +379,89 @@ func VH_C01_overlapping_handshakes_after_a_short_probe() {
 	verifAssert("C02.overlap.data-intact", verifBytesEq(t1.written, d1) && len(t1.written) == 2 && verifBytesEq(t2.written, d2) && len(t2.written) == 3)
 	verifReach("C01.overlap.done", true)
 }
+
+// the authenticated report (which starts the connection's tunnel time in the metrics) is made
+// when the connection is authenticated, not later: it is there while the server still waits for
+// the target address, and when that address never arrives intact
+func VH_C17_authenticated_before_the_address() {
+	cl, specs, entries := verifMakeList(1, 1, false)
+	key := verifKey(specs[0].cipher, verifSecrets[specs[0].secret])
+	stream := verifClientStream(key, []byte{1, 93, 184, 216, 34, 0, 80, 'x', 'y'})
+	verifAssume(!entries[0].SaltGenerator.IsServerSalt(stream[:key.SaltSize()]))
+	conn := &verifStreamConn{name: "client", remote: &net.TCPAddr{IP: net.IPv4(203, 0, 113, 5), Port: 50000}}
+	target := &verifStreamConn{name: "target", remote: &net.TCPAddr{IP: net.IPv4(93, 184, 216, 34), Port: 80}}
+	m := &verifTCPMetrics{}
+	hdr := key.SaltSize() + 2 + 16
+	damaged := verifFlag("address-chunk-damaged")
+	if damaged {
+		// a byte of the chunk that carries the address (its length was authenticated already)
+		k := hdr + verifChoice("pos", 9+16)
+		stream[k] ^= 1 + verifU8("delta")%255
+	}
+	// the first 50 bytes come first, the rest of the address chunk only later
+	cut := 50
+	conn.reads = []verifSRead{{data: stream[:cut]}, {data: stream[cut:]}}
+	reportedWhileWaiting := -1
+	conn.onRead = func(call int) {
+		if call == 2 {
+			reportedWhileWaiting = len(m.authenticated)
+		}
+	}
+	dialer := &verifDialer{conn: target}
+	h := NewStreamHandler(NewShadowsocksStreamAuthenticator(cl, nil, nil, nil), tcpReadTimeout)
+	h.SetTargetDialer(dialer)
+	h.Handle(contextBackground(), conn, m)
+	verifAssert("C17.early-auth.reported-while-the-address-is-awaited|C15.early-auth.reported-while-the-address-is-awaited", reportedWhileWaiting == 1)
+	verifAssert("C17.early-auth.reported-once-under-its-key|C15.early-auth.reported-once-under-its-key", len(m.authenticated) == 1 && m.authenticated[0] == "id-0")
+	if damaged {
+		verifAssert("C15.early-auth.damaged-address-status", len(m.closed) == 1 && m.closed[0] == "ERR_READ_ADDRESS" && len(dialer.dials) == 0)
+	} else {
+		verifAssert("C15.early-auth.served", len(m.closed) == 1 && m.closed[0] == "OK" && string(target.written) == "xy")
+	}
+	verifReach("C17.early-auth.damaged", damaged)
+}
+
+// every form of target address (IPv4, IPv6, host names from one letter to the longest): the
+// address named is the one dialed, and the target receives exactly the plaintext that follows
+// the address header, whether it shared the first chunk with the header or came in its own
+func VH_C02_address_forms() {
+	cl, specs, entries := verifMakeList(1, 1, false)
+	key := verifKey(specs[0].cipher, verifSecrets[specs[0].secret])
+	names := []string{"x", "ai", "a.b", "e.io", "example.com", "a-rather-long-name-of-a-host.with-several-labels.example.org"}
+	var header []byte
+	wantDial := ""
+	switch form := verifChoice("form", 2+len(names)); form {
+	case 0:
+		header = []byte{1, 93, 184, 216, 34, 0, 80}
+		wantDial = "93.184.216.34:80"
+	case 1:
+		header = []byte{4, 0x20, 0x01, 0x0d, 0xb8, 0, 0, 0, 0, 0, 0, 0, 0, 0, 0, 0, 1, 0, 80}
+		wantDial = "[2001:db8::1]:80"
+	default:
+		name := names[form-2]
+		header = append([]byte{3, byte(len(name))}, name...)
+		header = append(header, 0, 80)
+		wantDial = name + ":80"
+	}
+	data := verifBytes("payload", 3)
+	var chunks [][]byte
+	if verifFlag("coalesced") {
+		chunks = [][]byte{append(append([]byte{}, header...), data...)}
+	} else {
+		chunks = [][]byte{header, data}
+	}
+	stream := verifClientStream(key, chunks...)
+	verifAssume(!entries[0].SaltGenerator.IsServerSalt(stream[:key.SaltSize()]))
+	conn := &verifStreamConn{name: "client", remote: &net.TCPAddr{IP: net.IPv4(203, 0, 113, 5), Port: 50000}}
+	conn.reads = []verifSRead{{data: stream}}
+	target := &verifStreamConn{name: "target", remote: &net.TCPAddr{IP: net.IPv4(93, 184, 216, 34), Port: 80}}
+	dialer := &verifDialer{conn: target}
+	h := NewStreamHandler(NewShadowsocksStreamAuthenticator(cl, nil, nil, nil), tcpReadTimeout)
+	h.SetTargetDialer(dialer)
+	m := &verifTCPMetrics{}
+	h.Handle(context.Background(), conn, m)
+	verifAssert("C02.forms.dialed-the-named-address", len(dialer.dials) == 1 && dialer.dials[0] == wantDial)
+	verifAssert("C02.forms.payload-intact", len(target.written) == 3 && verifBytesEq(target.written, data))
+	verifAssert("C02.forms.closed-ok", len(m.closed) == 1 && m.closed[0] == "OK")
+	verifReach("C02.forms.done", true)
+}
